@@ -82,7 +82,7 @@ structure InvAB (cfg : Cfg) (np ns : Option Nat) (fl : Option (Nat × Nat × Boo
   a : InvA cfg np ns w
   b : InvB fl w
 
-theorem InvAB.retrieveFrom (h : InvAB cfg np ns fl w) (p : Nat) (sl : List (Option Nat))
+theorem invAB_retrieveFrom (h : InvAB cfg np ns fl w) (p : Nat) (sl : List (Option Nat))
     (hex : ∀ P, getP w p = some P → P.ex = true)
     (hsl : ∀ s, some s ∈ sl → ∀ P, getP w p = some P → ∃ i : Nat, P.conns[i]? = some (some s)) :
     InvAB cfg np ns fl (retrieveFrom w p sl) := by
@@ -116,14 +116,14 @@ theorem InvAB.retrieveFrom (h : InvAB cfg np ns fl w) (p : Nat) (sl : List (Opti
           · rw [hg] at hQ; cases hQ; rw [hst.1.ex]; exact hex P hP
           · rw [hg] at hQ; cases hQ; rw [hst.2]; exact hsl s' (List.mem_cons_of_mem _ hs') P hP
 
-theorem InvAB.retrieveReturned (h : InvAB cfg np ns fl w) (p : Nat) (hex : ∀ P, getP w p = some P → P.ex = true) :
+theorem invAB_retrieveReturned (h : InvAB cfg np ns fl w) (p : Nat) (hex : ∀ P, getP w p = some P → P.ex = true) :
     InvAB cfg np ns fl (retrieveReturned w p) := by
   unfold Iox2.PubSub.retrieveReturned
   cases hP : getP w p with
   | none => exact h
   | some P =>
     simp only
-    refine h.retrieveFrom p P.conns hex (fun s hs Q hQ => ?_)
+    refine invAB_retrieveFrom h p P.conns hex (fun s hs Q hQ => ?_)
     rw [hP] at hQ; cases hQ
     obtain ⟨i, hi⟩ := List.getElem?_of_mem hs
     exact ⟨i, hi⟩
